@@ -278,3 +278,65 @@ def add_nested_nodes(prop="C13"):
     c.ensures("next_hop_iff_nodes_left_and_below_the_depth_limit_else_truncated_here", post)
     c.no_raise = True
     return c
+
+
+PROJECT_WIDE_GRAPHS = ("ModuleGraph", "TypeGraph", "CallGraph")
+
+
+def project_graphs_respect_graph_false(prop="C13", replay=None):
+    """`graph: false` in an entity's metadata removes its node from the project-wide graphs (BaseNode.in_project_graphs).  In the add_node method of each project-wide graph
+    class (ModuleGraph, TypeGraph, CallGraph) every neighbour X that is put into the graph - `hop_nodes.add(X)` or an edge to / from X appended to hop_edges - stands behind a
+    test of `X.in_project_graphs`: a leading `if not X.in_project_graphs: continue` of the loop over the neighbours, or an enclosing `if ... and X.in_project_graphs`."""
+    import ast
+    from harness import loader
+    from harness.core import OR, PROVED, REFUTED, UNKNOWN
+    _, tree = loader.module_source("ford.graphs")
+    out = []
+    for cname in PROJECT_WIDE_GRAPHS:
+        cls = [c for c in tree.body if isinstance(c, ast.ClassDef) and c.name == cname]
+        fn = [m for c in cls for m in c.body if isinstance(m, ast.FunctionDef) and m.name == "add_node"]
+        oid = f"{prop}.S.graphs.{cname}.add_node.neighbours_with_graph_false_stay_out"
+        if len(fn) != 1:
+            out.append(OR(id=oid, status=UNKNOWN, kind="S", target=f"ford.graphs.{cname}.add_node", detail="method not found"))
+            continue
+        fn = fn[0]
+        node_param = fn.args.args[3].arg if len(fn.args.args) > 3 else "node"
+        sites, bad = 0, []
+
+        def visit(stmts, guarded):
+            nonlocal sites
+            g = set(guarded)
+            for st in stmts:
+                if isinstance(st, ast.If) and isinstance(st.test, ast.UnaryOp) and isinstance(st.test.op, ast.Not) and ast.unparse(st.test.operand).endswith(".in_project_graphs") \
+                        and st.body and isinstance(st.body[-1], (ast.Continue, ast.Return)) and not st.orelse:
+                    g.add(ast.unparse(st.test.operand)[:-len(".in_project_graphs")])
+                    continue
+                if isinstance(st, ast.If):
+                    conj = st.test.values if isinstance(st.test, ast.BoolOp) and isinstance(st.test.op, ast.And) else [st.test]
+                    pos = {ast.unparse(c)[:-len(".in_project_graphs")] for c in conj if ast.unparse(c).endswith(".in_project_graphs")}
+                    visit(st.body, g | pos)
+                    visit(st.orelse, g)
+                    continue
+                if isinstance(st, ast.For):
+                    visit(st.body, g)
+                    continue
+                for c in ast.walk(st):
+                    if isinstance(c, ast.Call) and isinstance(c.func, ast.Attribute) and c.func.attr in ("add", "append") and isinstance(c.func.value, ast.Name) and c.func.value.id in ("hop_nodes", "hop_edges"):
+                        args = c.args[0].args[:2] if c.func.attr == "append" and isinstance(c.args[0], ast.Call) else c.args[:1]
+                        for a in args:
+                            x = ast.unparse(a)
+                            if x == node_param:
+                                continue
+                            sites += 1
+                            if x not in g:
+                                bad.append((c.lineno, ast.unparse(c)[:70], x))
+        visit(fn.body, set())
+        r = OR(id=oid, status=(REFUTED if bad else PROVED) if sites else UNKNOWN, kind="S", role="post", backend="ast", target=f"ford.graphs.{cname}.add_node",
+               desc=f"{cname}.add_node: each of the {sites} places that put a neighbour into the project-wide graph is reached only if `<neighbour>.in_project_graphs`")
+        if bad:
+            r.witness = {"sites": bad}
+            r.detail = f"line {bad[0][0]}: `{bad[0][1]}` adds `{bad[0][2]}` without looking at its `graph` setting: an entity with `graph: false` comes back through its neighbour"
+            if replay:
+                r.replay = replay()
+        out.append(r)
+    return out
